@@ -78,18 +78,22 @@ def run_one(module, cfg, work, name, evs):
 
 
 def run():
-    work = os.path.join(ROOT, "work", "selftest-sellaws")
-    os.makedirs(work, exist_ok=True)
-    ok = True
+    from concurrent.futures import ThreadPoolExecutor
+    base = os.path.join(ROOT, "work", "selftest-sellaws")
     good, bad = laws_traces()
-    ok &= run_one("Trace_SelLaws", "Trace_SelLaws.cfg", work, "good", good) == (True, None)
+    jobs = [("Trace_SelLaws", "good", good, (True, None))]
     for name in ("irreflexive", "nontransitive"):
         evs, at = bad[name]
-        ok &= run_one("Trace_SelLaws", "Trace_SelLaws.cfg", work, name, evs) == (False, at)
-    rt = rt_traces()
-    if rt:
-        g, b, at = rt
-        ok &= run_one("Trace_SelRT", "Trace_SelRT.cfg", work, "rt-good", g) == (True, None)
-        ok &= run_one("Trace_SelRT", "Trace_SelRT.cfg", work, "rt-bad", b) == (False, at)
-    shutil.rmtree(work, ignore_errors=True)
+        jobs.append(("Trace_SelLaws", name, evs, (False, at)))
+    g, b, at = rt_traces()
+    jobs += [("Trace_SelRT", "rt-good", g, (True, None)), ("Trace_SelRT", "rt-bad", b, (False, at))]
+
+    def one(job):
+        module, name, evs, want = job
+        work = os.path.join(base, name)          # one metadir per run: they run side by side
+        os.makedirs(work, exist_ok=True)
+        return run_one(module, module + ".cfg", work, name, evs) == want
+    with ThreadPoolExecutor(len(jobs)) as ex:
+        ok = all(ex.map(one, jobs))
+    shutil.rmtree(base, ignore_errors=True)
     return bool(ok)
